@@ -7,7 +7,7 @@ import random
 from .common import *  # noqa: F401,F403
 
 ASSUMPTIONS = [
-    "bounded layer: frontmatter lines from a 20-item pool (quotes, dots, Markdown syntax, trailing spaces, blank lines, the "
+    "bounded layer: frontmatter lines from a 26-item pool (quotes, dots, Markdown syntax, trailing spaces, blank lines, the "
     "eight non-LF line boundaries and a lone CR inside values), 1-3 lines; 6 bodies; seeded option sets",
     "bodies whose first line is itself '---' are excluded from the independence check (formatted alone they are frontmatter)",
     "Marko's parse/render and preprocess_tag_block_spacing are uninterpreted in the contract (re-attachment is proved around them)",
@@ -15,7 +15,9 @@ ASSUMPTIONS = [
 
 FM_LINES = ['title: "T"', "a: 'b'", "x: 1.5.", "list: [a, b]", "# not a heading", "- item", "k: v   ", "", "  ", "* * *",
             "u: a b", "f: a\x0cb", "v: a\x0bb", "n: a\x85b", "p: a b", "g: a\x1cb\x1dc\x1ed", "r: a\rb", "t: a\tb\u00a0c", "long: " + "word " * 30,
-            "q: \"it's ... \\\"x\\\"\""]
+            "q: \"it's ... \\\"x\\\"\"",
+            # lines that merely start with (or contain) three dashes are content, not the closing delimiter
+            "---------- section ----------", "--- !ruby/object:Foo", "----", "k: --- v", "--- # comment", "---x"]
 BODIES = ["# **H**\n\nSome \"text\"... here that is long enough to be wrapped somewhere around forty columns ok.\n",
           "- a\n- b\n", "para one\n\npara two\n", "", "\n\n", "text with sep\n"]
 
@@ -67,7 +69,7 @@ def bounded(tier, seed):
             if o1 not in (src, src + "\n") or o2 != o1:
                 viol.append({"clause": "unclosed_unchanged", "input": {"text": src}, "got": [o1, o2]})
     return {"evaluations": evals, "distinct_nontrivial": len(distinct), "violations": viol, "samples": samples,
-            "rule": "seeded frontmatter blocks (0-3 lines from a 20-item pool incl. U+2028/2029, FF, VT, FS/GS/RS, NEL, lone CR, TAB, NBSP, quotes, "
+            "rule": "seeded frontmatter blocks (0-3 lines from a 26-item pool incl. lines that only start with '---', U+2028/2029, FF, VT, FS/GS/RS, NEL, lone CR, TAB, NBSP, quotes, "
                     "Markdown syntax, trailing spaces, blank lines; LF or CRLF; optional leading blank / whitespace-only lines in LF or CRLF, delimiter lines with surrounding blanks) x 6 bodies x seeded "
                     "option sets: output starts with the block (CRLF->LF only), the rest equals format(body), idempotent; every pair "
                     "of 8 lines as an unclosed block x 3 endings: unchanged up to a final newline, twice; distinct = distinct "
